@@ -6,7 +6,7 @@
 From Coq Require Import List ZArith Bool Arith Permutation Sorted.
 From YV Require Import Common.Corr Model.Queries Model.Streams
   Lemmas.QueriesLaws Lemmas.QueriesOrder Lemmas.QueriesGroup Lemmas.QueriesInsert
-  Lemmas.StreamsSteps Lemmas.StreamsPipeline.
+  Lemmas.QueriesDictSet Lemmas.StreamsSteps Lemmas.StreamsPipeline Lemmas.StreamsMore.
 Import ListNotations.
 
 (* orderBy / thenBy with any ascending/descending flags: the output is a
@@ -138,20 +138,71 @@ Theorem C13_index_of : forall (p : val -> bool) l,
                 forallb (fun y => negb (p y)) (skipn (S k) l) = true)).
 Proof. exact (fun p l => conj (index_of_spec p l) (last_index_from_spec p l 0 (-1))). Qed.
 
-(* ---- streaming == list semantics ------------------------------------------------ *)
-(* every pipeline of select/where/skip/take/takeWhile/skipWhile/enumerate/memorize over a
-   finite source: consuming the lazy object once yields exactly the list semantics *)
-Theorem C13_stream_is_list : forall (ops : list sop) (l : list val) (s : st),
-  exists fuel s', drain fuel s (build_all ops (OfList l)) = (s', Ok (outs_all ops l)).
-Proof. exact (fun ops l s => denotes_drain _ _ (pipeline_denotes ops _ _ (oflist_denotes l)) s). Qed.
+(* ---- persistent dict updates and set algebra ------------------------------------------ *)
+(* dict.set: the written key reads back the new value, every other key is untouched, a key
+   already present keeps its place and a new one goes last *)
+Theorem C13_dict_set : forall k v d,
+  dict_get_l k (dict_set_l k v d) = Some v /\
+  (forall k2, val_eqb k2 k = false -> dict_get_l k2 (dict_set_l k v d) = dict_get_l k2 d) /\
+  map fst (dict_set_l k v d) = match dict_get_l k d with Some _ => map fst d | None => map fst d ++ [k] end.
+Proof. exact (fun k v d => conj (dict_get_set_same k v d) (conj (fun k2 H => dict_get_set_other k v d k2 H) (dict_set_keys k v d))). Qed.
 
-(* the same for the binary / seeded operators, for any inner iterators *)
+Theorem C13_dict_delete : forall k d,
+  (ForallOrdPairs (fun a b => val_eqb (fst b) (fst a) = false) d -> dict_get_l k (dict_del_l k d) = None) /\
+  (forall k2, val_eqb k2 k = false -> dict_get_l k2 (dict_del_l k d) = dict_get_l k2 d).
+Proof. exact (fun k d => conj (dict_get_del_same k d) (fun k2 H => dict_get_del_other k d k2 H)). Qed.
+
+(* d + e, d.set(e), mergeWith on scalar values: the right operand wins, the rest of d is untouched;
+   toDict / dict(items): the last item written for a key gives its value; keys/values/items agree *)
+Theorem C13_dict_update : forall d e k,
+  dict_get_l k (dict_update_l d e) =
+  match dict_get_l k (dict_of_items e) with Some v => Some v | None => dict_get_l k d end.
+Proof. exact dict_update_get. Qed.
+
+Theorem C13_dict_construction : forall items k v (d : kvs),
+  dict_get_l k (dict_of_items (items ++ [(k, v)])) = Some v /\
+  combine (map fst d) (map snd d) = d /\ length (map fst d) = length (map snd d).
+Proof. exact (fun items k v d => conj (dict_of_items_last items k v) (dict_views_consistent d)). Qed.
+
+(* union / intersect / difference / symmetricDifference are the list-set operations, and keep
+   their results duplicate-free *)
+Theorem C13_set_algebra : forall a b x,
+  vmem x (set_union a b) = vmem x a || vmem x b /\
+  vmem x (set_inter a b) = vmem x a && vmem x b /\
+  vmem x (set_diff a b) = vmem x a && negb (vmem x b) /\
+  vmem x (set_symdiff a b) = xorb (vmem x a) (vmem x b).
+Proof. exact set_algebra_spec. Qed.
+
+Theorem C13_set_no_duplicates : forall a b, no_dups a -> no_dups b ->
+  no_dups (set_union a b) /\ no_dups (set_inter a b) /\ no_dups (set_diff a b) /\ no_dups (set_of_list a).
+Proof. exact set_results_nodup. Qed.
+
+(* ---- streaming == list semantics ------------------------------------------------ *)
+(* [Denotes i l]: successive [next]s on i yield exactly l and then Done, from every state.
+   Every pipeline of select/where/skip/take/takeWhile/skipWhile/enumerate/memorize/append/
+   accumulate(seed)/delete/replace(Many)/insert/selectMany over a finite source: consuming the
+   lazy object once yields exactly the list semantics of Model/Queries.v *)
+Theorem C13_stream_is_list : forall (ops : list yop) (l : list val) (s : st),
+  exists fuel s', drain fuel s (ybuild_all ops (OfList l)) = (s', Ok (ylist_all ops l)).
+Proof. exact (fun ops l s => denotes_drain _ _ (ypipeline_denotes ops _ _ (oflist_denotes l)) s). Qed.
+
+(* the same, compositionally, for any inner iterators (not only list sources) *)
+Theorem C13_stream_is_list_compositional : forall (ops : list yop) i l, Denotes i l -> Denotes (ybuild_all ops i) (ylist_all ops l).
+Proof. exact ypipeline_denotes. Qed.
+
 Theorem C13_stream_is_list_append : forall i j l1 l2, Denotes i l1 -> Denotes j l2 -> Denotes (Chain i j) (l1 ++ l2).
 Proof. exact denotes_chain. Qed.
 
-Theorem C13_stream_is_list_accumulate : forall f sd i l, Denotes i l ->
-  Denotes (AccStart f (Some sd) i) (accumulate_seed (apply2 f) sd l).
-Proof. exact denotes_accumulate_seed. Qed.
+(* distinct streams as its list semantics whenever every key is hashable (otherwise TypeError on both sides) *)
+Theorem C13_stream_is_list_distinct : forall f l seen i, Denotes i l -> forallb (fun x => hashable (dkey f x)) l = true ->
+  Denotes (Distinct f seen i) (distinct_from val_eqb (dkey f) seen l).
+Proof. exact denotes_distinct. Qed.
+
+(* accumulate without a seed on a non-empty source (on an empty one: TypeError, lazily) *)
+Theorem C13_stream_is_list_accumulate : forall f x r i, Denotes i (x :: r) ->
+  Denotes (AccStart f None i) (accumulate_seed (apply2 f) x r) /\
+  (forall j dp dt, EndsD j dp dt -> FailsD (AccStart f None j) EType dp dt).
+Proof. exact (fun f x r i D => conj (denotes_accumulate_noseed f x r i D) (fun j dp dt E => accstart_empty f j dp dt E)). Qed.
 
 (* non-vacuity: the model at work on concrete inputs *)
 Example C13_example_order :
